@@ -253,18 +253,37 @@ func (in *Interp) mathUF1(name string, x *term.Term) *term.Term {
 		in.addFact(u, imp(pinf, term.FisInf(u, 1)))
 		in.addFact(u, imp(ninf, eq(u, c(0))))
 		in.addFact(u, imp(term.Not(nan(x)), term.And(term.Not(nan(u)), le(c(0), u))))
+		// range steps of Go's math.Exp (documented overflow / underflow thresholds,
+		// monotone, error < 1 ulp; bounds relaxed outwards): what overflow- and
+		// underflow-dependent behaviour of callers can be decided from
+		in.addFact(u, imp(term.Flt(c(709.782712893384), x), term.FisInf(u, 1)))
+		in.addFact(u, imp(le(x, c(709.78)), term.Not(term.FisInf(u, 0))))
+		in.addFact(u, imp(le(x, c(-745.2)), eq(u, c(0))))
+		in.addFact(u, imp(le(x, c(0)), le(u, c(1))))
+		in.addFact(u, imp(le(c(0), x), le(c(1), u)))
+		in.addFact(u, imp(eq(x, c(0)), eq(u, c(1))))
+		in.addFact(u, imp(le(c(88.73), x), le(c(3.41e38), u)))  // beyond MaxFloat32
+		in.addFact(u, imp(le(x, c(-104.5)), le(u, c(4.2e-46)))) // below half the least float32
+		in.addFact(u, imp(le(c(-700), x), term.Flt(c(0), u)))
+		in.addFact(u, imp(le(c(37), x), le(c(1.1e16), u))) // 1 + exp(x) == exp(x) from here on
+		in.addFact(u, imp(le(x, c(-37)), le(u, c(1e-16)))) // 1 + exp(x) == 1
 	case "Expm1":
 		in.addFact(u, imp(pinf, term.FisInf(u, 1)))
 		in.addFact(u, imp(ninf, eq(u, c(-1))))
 		in.addFact(u, imp(term.Not(nan(x)), term.And(term.Not(nan(u)), le(c(-1), u))))
 		in.addFact(u, imp(eq(x, c(0)), eq(u, c(0))))
 	case "Log", "Log2", "Log10":
+		in.addFact(u, imp(le(c(1), x), le(c(0), u)))
+		in.addFact(u, imp(term.And(term.Flt(c(0), x), le(x, c(1))), le(u, c(0))))
 		in.addFact(u, imp(term.Flt(x, c(0)), nan(u)))
 		in.addFact(u, imp(eq(x, c(0)), term.FisInf(u, -1)))
 		in.addFact(u, imp(pinf, term.FisInf(u, 1)))
 		in.addFact(u, imp(term.And(term.Flt(c(0), x), fin), term.And(term.Not(nan(u)), term.Not(term.FisInf(u, 0)))))
 		in.addFact(u, imp(eq(x, c(1)), eq(u, c(0))))
 	case "Log1p":
+		in.addFact(u, imp(le(c(0), x), term.And(le(c(0), u), le(u, x))))
+		in.addFact(u, imp(term.And(le(c(0), x), le(x, c(1))), le(u, c(0.69314718056))))
+		in.addFact(u, imp(term.And(term.Flt(c(-1), x), le(x, c(0))), le(u, c(0))))
 		in.addFact(u, imp(term.Flt(x, c(-1)), nan(u)))
 		in.addFact(u, imp(eq(x, c(-1)), term.FisInf(u, -1)))
 		in.addFact(u, imp(pinf, term.FisInf(u, 1)))
@@ -375,7 +394,12 @@ func extPow(in *Interp, fn *ssa.Function, a []Value) Value {
 		return term.Ite(term.FisInf(x, -1), c(math.Inf(1)), r)
 	}
 	if y.IsConst() && y.F == 2 {
-		// not exact in general (Pow(x,2) is computed by its own algorithm), keep uninterpreted
+		// not exact in general (Pow(x,2) is computed by its own algorithm), keep
+		// uninterpreted; range of a square: non-negative, at most 1 on [-1, 1]
+		// (Pow's result is within 1 ulp of the exact square, and 1 is exact)
+		nn := term.Not(term.FisNaN(x))
+		in.addFact(u, imp(nn, term.And(term.Not(term.FisNaN(u)), term.Fle(c(0), u))))
+		in.addFact(u, imp(term.And(term.Fle(c(-1), x), term.Fle(x, c(1))), term.Fle(u, c(1))))
 	}
 	y0 := term.Feq(y, c(0))
 	x1 := term.Feq(x, c(1))
